@@ -24,6 +24,11 @@ TIMES = 'history/times.py'; HFILES = 'history/files.py'; TNETS = 'server/tnetstr
 POLL = 'server/enip/poll.py'; DEFAULTS = 'server/enip/defaults.py'; NETWORK = 'server/network.py'
 
 VARIANTS = [
+    V( 'optext-tag-not-stripped', CLIENT, "device.parse_path_elements( tag.strip() )", "device.parse_path_elements( tag )", fires=[ 'T-OPTEXT' ] ),
+    V( 'optext-stripped-at-loop-head', CLIENT, "val = ''\n opr = {}\n if '=' in tag:", "val			= ''\n        opr			= {}\n        tag			= tag.strip()\n        if '=' in tag:", silent=[ 'T-OPTEXT', 'T-OPOFFSET', 'T-OPTYPE' ] ),
+    V( 'pace-horizon-rewritten', HFILES, "cur = self.advance()\n adv = cur + ( lookahead or 0.0 )\n while", "cur			= self.advance()\n            adv			= ( cur + lookahead ) if lookahead else cur\n            while", silent=[ 'H-PACE' ] ),
+    V( 'ncp-decode-mask-after-shift', DEFAULTS, "variable = 0b01 & self._NCP >> ( 9 + ( 16 if self._large else 0 )),", "variable	= ( self._NCP >> ( 25 if self._large else 9 )) % 2,", silent=[ 'T-NCP' ] ),
+    V( 'ncp-decode-wrong-bit', DEFAULTS, "variable = 0b01 & self._NCP >> ( 9 + ( 16 if self._large else 0 )),", "variable	= 0b01 & self._NCP >> (  8 + ( 16 if self._large else 0 )),", fires=[ 'T-NCP' ] ),
     V( 'replies-bundle-status-not-raised', CLIENT, "msvc_status = request.get( 'status' )\n if msvc_status:\n raise MSVCStatusError( status=msvc_status )", "msvc_status		= request.get( 'status' )", fires=[ 'K-REPLIES' ] ),
     V( 'replies-first-member-only', CLIENT, "replies = request.multiple.request", "replies		= request.multiple.request[:1]", fires=[ 'K-REPLIES' ] ),
     V( 'replies-timeout-as-eof', CLIENT, "if response is None: # None response indicates timeout\n return None", "if response is None: # None response indicates timeout\n        return {}", fires=[ 'K-REPLIES' ] ),
